@@ -83,6 +83,7 @@ OBLIGATIONS = {
     "sample_on_repeated_fix": "spatial: a sample falls on the abscissa of a repeated position",
     "irrational_leg": "spatial: a sample lies on a leg of irrational length",
     "zero_length_track": "spatial: all fixes at the same position",
+    "long_track_sparse_requests": "a track of 7..12 fixes resampled at single instants / pairs of instants inside each leg",
     "after_edit_history": "the call was also made on a track reached through a history (features cached on another "
                           "geometry, one fix removed, positions moved in place)",
 }
@@ -522,8 +523,51 @@ def _shards(variant, nmax):
     return sh
 
 
+# ---------------------------------------------------------------------------
+# tracks that are not tiny, requested sparsely: one fixed path of 7, 8 and 12 fixes, irregular sampling; every single
+# requested instant strictly inside each leg, every ordered pair of such instants (the cursor of the resampler has to
+# jump over any number of fixes), the numeric steps, and every ds whose first sample falls in the middle of leg k
+# ---------------------------------------------------------------------------
+LONG_N = {"quick": [7, 8, 12], "thorough": [7, 8, 12, 20]}
+_LONG_DT = [1, 2, 1, 4, 2, 1, 3]
+
+
+def long_track(n):
+    pts = [LATTICE[(2 * i) % len(LATTICE)] if i % 3 else LATTICE[(i + 1) % len(LATTICE)] for i in range(n)]
+    times, t = [], 0
+    for i in range(n):
+        times.append(t)
+        t += _LONG_DT[i % len(_LONG_DT)]
+    return pts, tuple(times)
+
+
+def run_long(variant, n, ctx):
+    pts, times = long_track(n)
+    ts = TSCALE[variant]
+    mids = [0.5 * (times[k] + times[k + 1]) for k in range(n - 1)]
+    for s in STEPS + [float(times[-1]) / 2.0, float(times[-1])]:
+        check_temporal(variant, pts, times, {"kind": "step", "value": s}, ctx)
+    for k in range(n - 1):
+        check_temporal(variant, pts, times, {"kind": "list", "rel": [ts * mids[k]]}, ctx)
+        check_temporal(variant, pts, times, {"kind": "track", "rel": [ts * mids[k], ts * (times[-1] + 5)]}, ctx)
+        for j in range(k + 1, n - 1):
+            check_temporal(variant, pts, times, {"kind": "list", "rel": [ts * mids[k], ts * mids[j]]}, ctx)
+    fx = fixes(variant, pts, times)
+    S = abscissas(fx)
+    for k in range(n - 1):
+        if S[k + 1] > S[k]:
+            check_spatial(variant, pts, times, 0.5 * (S[k] + S[k + 1]), ctx)
+    for ds in DS:
+        check_spatial(variant, pts, times, ds, ctx)
+    ctx.oblige("long_track_sparse_requests")
+    ctx.sample({"mode": "long track", "fixes": n, "pts": [list(p_) for p_ in pts], "times": list(times),
+                "requests": "every leg middle alone, every ordered pair of leg middles, steps, first spatial sample in each leg"})
+
+
 def plan(tier, variant):
     sh = _shards(variant, NMAX[tier])
+    for n in LONG_N[tier]:
+        sh.append({"kind": "long", "variant": variant, "N": n, "head": []})
     if tier == "thorough":
         for v in range(N_VARIANTS):
             if v != variant:
@@ -532,6 +576,8 @@ def plan(tier, variant):
 
 
 def run_shard(shard, ctx):
+    if shard["kind"] == "long":
+        return run_long(shard["variant"], shard["N"], ctx)
     v, n, head = shard["variant"], shard["N"], shard["head"]
     lat = alpha.order(v, LATTICE)
     sampled = False
